@@ -202,6 +202,11 @@ class FormatterFactory:
             #
             raise ValueError('%s formats cannot use positional placeholders')
 
+        # Make sure a formatter can actually be created from these
+        # settings, so that problems are reported when the
+        # configuration is loaded rather than when logging starts.
+        self()
+
     def __call__(self):
         #
         # Need to determine if we should pass
@@ -226,7 +231,7 @@ class FormatterFactory:
                 kwargs['validate'] = False
                 formatter = self.factory(self.format, self.dateformat,
                                          style='$', **kwargs)
-                assert formatter._style._fmt == self.format
+                assert formatter._style._fmt == stylist._fmt
                 formatter._style = stylist
         else:
             formatter = self.factory(self.format, self.dateformat)
